@@ -47,6 +47,11 @@ class _Sim:
 
     def apply(self, op):
         kind = op[0]
+        if kind == 'g':
+            r = None
+            for o in op[1]:
+                r = self.apply(o)
+            return r
         if kind == 'l':
             _, c, k = op
             if k not in self.keys_seen:
@@ -108,7 +113,8 @@ class C26(Prop):
     rule = ('case = (lifetime in ticks, num_slots, op sequence); lookups are tasks running the real lookup(k); the load function blocks on a '
             'harness gate; op ok/fail opens the gate of the load in flight for that key with a value (an int, None, 0, \'\' or []) / '
             'LoadError; op x cancels a caller '
-            'task; op adv moves the virtual clock that time.monotonic_ns reads. After every op the loop runs to quiescence and (clock, '
+            'task; op adv moves the virtual clock that time.monotonic_ns reads; op g issues a load completion and one or two lookups in the SAME '
+            'turn of the event loop (no loop iteration in between). After every op the loop runs to quiescence and (clock, '
             '_cache/_expiry_time contents, keys whose load function is running, pending callers with their key, loads entered and '
             'caller outcomes during this op) is compared with the model. non-trivial = some lookup joined a load in flight, hit the cache, '
             'met an expired entry or caused an eviction; distinct by full case')
@@ -172,6 +178,13 @@ class C26(Prop):
                 elif waiting:
                     ops.append(['l', rng.choice(waiting), rng.randrange(nkeys)])
                 continue
+            if kind in ('ok', 'fail') and rng.random() < 0.3:
+                # the completion and one or two new lookups land in the same turn of the event loop
+                free = [i for i in range(ncallers) if i not in waiting]
+                rng.shuffle(free)
+                sub = [op] + [['l', i, op[1] if rng.random() < 0.7 else rng.randrange(nkeys)] for i in free[:rng.choice([1, 1, 2])]]
+                if len(sub) > 1:
+                    op = ['g', sub]
             sim.apply(op)
             ops.append(op)
         return {'L': L, 'slots': slots, 'ops': ops}
@@ -197,10 +210,14 @@ class C26(Prop):
                 rec(ops + [['ok', k, len(ops) + 1]])
                 if with_none:
                     rec(ops + [['ok', k, None]])
+                if len(waiting) < ncallers:      # completion + a lookup of the same key in the same loop turn
+                    cf = min(i for i in range(ncallers) if i not in waiting)
+                    rec(ops + [['g', [['fail', k], ['l', cf, k]]]])
+                    rec(ops + [['g', [['ok', k, len(ops) + 1], ['l', cf, k]]]])
                 rec(ops + [['fail', k]])
             for c in waiting:
                 rec(ops + [['x', c]])
-            if ops and ops[-1][0] != 'adv':
+            if ops and ops[-1][0] != 'adv' and True:
                 for dt in dts:
                     rec(ops + [['adv', dt]])
         rec([])
@@ -226,9 +243,17 @@ class C26(Prop):
             yield self._random_case(rng)
 
     # ---- model ---------------------------------------------------------------------------------
+    @staticmethod
+    def _op_line(o):
+        return ('ok {} {}'.format(o[1], tok(pyval(o[2]))) if o[0] == 'ok' else
+                {'l': 'lookup {} {}', 'fail': 'fail {}', 'x': 'cancel {}', 'adv': 'adv {}'}[o[0]].format(*o[1:]))
+
     def model_lines(self, c):
         out = ['reset', f"cfg {c['L']} {c['slots']}"]
         for o in c['ops']:
+            if o[0] == 'g':
+                out.append('group ' + ' ; '.join(self._op_line(x) for x in o[1]))
+                continue
             out.append(('ok {} {}'.format(o[1], tok(pyval(o[2]))) if o[0] == 'ok' else
                        {'l': 'lookup {} {}', 'fail': 'fail {}', 'x': 'cancel {}', 'adv': 'adv {}'}[o[0]].format(*o[1:])))
         return out
@@ -302,6 +327,32 @@ class C26(Prop):
                 out = ['ok', line()]
                 for op in c['ops']:
                     kind = op[0]
+                    if kind == 'g':
+                        # several actions in ONE turn of the event loop: a load completion is delivered and lookups are issued
+                        # before the loop runs again (so before any done-callback of the finished load task has run)
+                        sub = op[1]
+                        bad = False
+                        for o in sub:
+                            if o[0] == 'l':
+                                bad = bad or (o[1] in callers and not callers[o[1]][0].done())
+                            elif o[0] in ('ok', 'fail'):
+                                bad = bad or not running.get(o[1])
+                            else:
+                                bad = True
+                        if bad or len({o[1] for o in sub if o[0] == 'l'}) < sum(1 for o in sub if o[0] == 'l') \
+                                or len({o[1] for o in sub if o[0] != 'l'}) < sum(1 for o in sub if o[0] != 'l'):
+                            out.append('err')
+                            continue
+                        for o in sub:
+                            if o[0] == 'l':
+                                callers[o[1]] = [s.spawn(('caller', o[1], len(out)), cache.lookup(o[2]), settle=False), o[2], 'new']
+                            elif o[0] == 'ok':
+                                s.open(('load', o[1], running[o[1]][0]), value=pyval(o[2]), settle=False)
+                            else:
+                                s.open(('load', o[1], running[o[1]][0]), exc=LoadError(f'load of {o[1]} failed'), settle=False)
+                        s.settle()
+                        out.append(line())
+                        continue
                     if kind == 'l':
                         _, i, k = op
                         if i in callers and not callers[i][0].done():
@@ -355,11 +406,16 @@ class C26(Prop):
             if d is None:
                 continue     # the harness refused the op (not a behaviour): nothing happened
             at = f'after op {idx} {op}'
-            kind = op[0]
-            if kind == 'adv':
-                t += op[1]
-            if kind == 'ok':
-                puts.setdefault(op[1], []).append((tok(pyval(op[2])), t))
+            sub = op[1] if op[0] == 'g' else [op]        # the atomic blocks of this loop turn, in the order they were issued
+            looks = {o[1]: o[2] for o in sub if o[0] == 'l'}                     # caller -> key of a lookup issued in this turn
+            oks = {o[1]: tok(pyval(o[2])) for o in sub if o[0] == 'ok'}          # key -> value of a load that finished now
+            fails = {o[1] for o in sub if o[0] == 'fail'}
+            cancels = {o[1] for o in sub if o[0] == 'x'}
+            for o in sub:
+                if o[0] == 'adv':
+                    t += o[1]
+            for k_, v_ in oks.items():
+                puts.setdefault(k_, []).append((v_, t))
             # internally consistent
             if d['i'] != ['ok']:
                 return f"{at}: the cache's internal structures disagree: {d['i']} (keys of _cache / _expiry_time / _keys_by_expiry, order by expiry)"
@@ -369,34 +425,40 @@ class C26(Prop):
             # single flight: `f` lists the keys whose load function is running, once per running invocation
             if len(set(d['f'])) < len(d['f']):
                 return f"{at}: two loads of the same key are in flight at once: {d['f']} (single flight)"
+            new_waits = {}
             for ev in d['e']:
                 p = ev.split(':')
                 if p[0] == 'wait':
-                    awaiting[int(p[1])] = op[2]
+                    new_waits[int(p[1])] = looks.get(int(p[1]))
                 elif p[0] == 'hit':
                     i, v = int(p[1]), p[2]
-                    k = op[2]
+                    k = looks.get(i)
                     if not any(v0 == v and 0 <= t - t0 < L for v0, t0 in puts.get(k, [])):
                         return (f'{at}: lookup of key {k} returned cached value {v} at time {t}; loads of that key returned '
                                 f'(value, time) {puts.get(k, [])}, lifetime {L} (stale or never loaded)')
                 elif p[0] == 'got':
                     i, v = int(p[1]), p[2]
                     k = awaiting.pop(i, None)
-                    if kind != 'ok' or op[1] != k or tok(pyval(op[2])) != v:
-                        return f'{at}: caller {i} waiting for key {k} received {v}, which is not the value this op loaded for that key'
+                    if k is None or oks.get(k) != v:
+                        return (f'{at}: caller {i} (waiting since an earlier turn for key {k}) received {v}, which is not the value a '
+                                f'load of that key returned in this turn; a lookup must wait for a load that is still in flight when '
+                                f'it begins, never observe the outcome of one that completed before')
                 elif p[0] == 'fail':
                     i = int(p[1])
                     k = awaiting.pop(i, None)
-                    if kind != 'fail' or op[1] != k:
-                        return f'{at}: caller {i} (waiting for key {k}) raised the load error although the load it awaited did not fail now'
+                    if k is None or k not in fails:
+                        return (f'{at}: caller {i} raised the load error although it was not waiting for a load that failed in this '
+                                f'turn (waiting for: {k}); a lookup that begins after a load has finished must start or join a load '
+                                f'that is still in flight, never re-raise the stale error')
                 elif p[0] == 'cancel':
                     i = int(p[1])
                     k = awaiting.pop(i, None)
-                    if kind != 'x' or op[1] != i:
+                    if i not in cancels:
                         return (f'{at}: caller {i} (waiting for key {k}) raised CancelledError although it was not cancelled '
                                 f'(failure locality)')
                 elif p[0] == 'exc':
                     return f'{at}: lookup of caller {p[1]} raised {p[2]} although no load failed and it was not cancelled'
+            awaiting.update(new_waits)
         return None
 
     def classify(self, c, out):
@@ -408,6 +470,10 @@ class C26(Prop):
                 seen.add('not-a-behaviour(err)')
                 continue
             kinds = {e.split(':')[0] for e in d['e']}
+            if op[0] == 'g':
+                seen.add('same-turn:' + '+'.join(o[0] for o in op[1]) + ('/same-key' if len({o[1] if o[0] != 'l' else o[2] for o in op[1]}) == 1 else ''))
+                prev = d['c']
+                continue
             if op[0] == 'l':
                 if 'hit' in kinds:
                     seen.add('hit')
